@@ -462,7 +462,8 @@ def _lint(ctx, prop):
         ov, nov = lint.rule_OV1(ctx, files)
         n1, nn1 = lint.rule_N1(ctx, files)
         d3, nd3 = lint.rule_D3(ctx, files)
-        out += [sw, ov, n1, d3]
+        cp, ncp = lint.rule_CP1(ctx, files)
+        out += [sw, ov, n1, d3, cp]
     return out
 
 
